@@ -46,6 +46,9 @@ func (v *Verifier) evalCall(s *State, call *ast.CallExpr) []*Term {
 		return v.callFuncValue(s, call)
 	}
 	sig := fn.Type().(*types.Signature)
+	if pp, key := funcKey(fn); pp == "slices" && key == "Concat" {
+		return v.modelConcat(s, call) // evaluates its own (generic, variadic) arguments
+	}
 	var recv *Term
 	var recvT types.Type
 	if sig.Recv() != nil {
